@@ -398,6 +398,9 @@ func (i *In) Evaluation(
 		}
 
 		if nextT.IsNewLineIdentifier() {
+			// the line end belongs to the statement loop, which ends the
+			// expression there: a body starting with 'if' is not a guard
+			p.Unget()
 			break
 		}
 
